@@ -202,4 +202,189 @@ theorem quoted_key (s : Bytes) (html : Bool) (hq : senString s html = 34 :: (sen
   rw [runBytes_cons_ok {} (fun l => step_close_member _ _ l (sanitize s) _ rfl rfl (by simp) rfl rfl rfl)]
   exact ⟨_, _, _, rfl, rfl, rfl, rfl⟩
 
+/-! ## the bare form -/
+
+/-- what is known about a non-empty string the writer leaves bare -/
+theorem bare_facts (s : Bytes) (html : Bool) (hne : s ≠ []) (hq : senQuoted s html = false) :
+    senString s html = s ∧ sanitize s = s ∧ (∀ x ∈ s, bareByte html x) ∧
+      ∃ b t, s = b :: t ∧ (senClass b = cO ∨ senClass b = c8 ∨ senClass b = cH) := by
+  unfold senQuoted at hq
+  simp only [Bool.or_eq_false_iff] at hq
+  obtain ⟨h1, h2, h3⟩ := force_false html s 0 trivial hq.2
+  refine ⟨?_, h2, h3, ?_⟩
+  · unfold senString
+    have : s.isEmpty = false := by cases s <;> simp_all
+    simp [this, senQuoted, hq.1, hq.2, h1]
+  · cases s with
+    | nil => exact absurd rfl hne
+    | cons b t =>
+      refine ⟨b, t, rfl, ?_⟩
+      have hf := hq.1
+      simp only [firstForces, Bool.or_eq_false_iff, Bool.and_eq_false_iff, bne_eq_false_iff_eq,
+        Bool.not_eq_false', Bool.and_eq_true, Bool.not_eq_true', beq_iff_eq] at hf
+      rcases hf.2 with (h | h) | h
+      · exact Or.inl h
+      · exact Or.inr (Or.inl h)
+      · exact Or.inr (Or.inr h.2)
+
+/-- the run over a bare string from value mode: the machine stands in token mode with the string pending
+and the token still inside the current buffer -/
+theorem bare_run (s : Bytes) (html : Bool) (st : St) (f : Fast) (p : Pos) (rest : Bytes) (hm : st.mode = .value)
+    (hne : s ≠ []) (hq : senQuoted s html = false)
+    (h2 : ¬ leadingSign s html) (h3 : ¬ nonTokenByte s html) :
+    ∃ p', runBytes refTables {} st f p (senString s html ++ rest) =
+      runBytes refTables {} { st with mode := .token, tmp := s.reverse }
+        { inFast := false, tokFast := true, nlSkipping := false } p' rest := by
+  obtain ⟨hs, _, hb, b, t, rfl, hc⟩ := bare_facts s html hne hq
+  have n38 : ∀ x ∈ b :: t, x ≠ 38 ∧ x ≠ 96 ∧ x ≠ 124 := by
+    intro x hx
+    refine ⟨?_, ?_, ?_⟩ <;> intro e <;> subst e <;> apply h3 <;> refine ⟨hq, ?_⟩
+    · exact Or.inl hx
+    · exact Or.inr (Or.inl hx)
+    · exact Or.inr (Or.inr hx)
+  have nsign : b ≠ 43 ∧ b ≠ 45 := by
+    refine ⟨?_, ?_⟩ <;> intro e <;> subst e <;> apply h2 <;> refine ⟨hq, ?_⟩
+    · exact Or.inl rfl
+    · exact Or.inr rfl
+  have hb0 := n38 b List.mem_cons_self
+  obtain ⟨t1, t2, t3⟩ := first_tokenStart b hc nsign.1 nsign.2 hb0.1 hb0.2.1 hb0.2.2
+  rw [hs, List.cons_append, runBytes_cons_ok {} (fun l => step_tokenStart {} rfl st f b l hm t1 t2 t3)]
+  obtain ⟨p', h⟩ := token_run {} rfl t { st with tmp := [b], mode := .token }
+    { inFast := false, tokFast := true, nlSkipping := false } (p.next false) rest rfl rfl rfl
+    (fun x hx => bare_tokenOk html x (hb x (List.mem_cons_of_mem _ hx)) (n38 x (List.mem_cons_of_mem _ hx)).1
+      (n38 x (List.mem_cons_of_mem _ hx)).2.1 (n38 x (List.mem_cons_of_mem _ hx)).2.2)
+  exact ⟨p', by rw [h]; simp⟩
+
+theorem tokenValue_str (s : Bytes) (h : ¬ reservedWord s) : tokenValue s = .str s := by
+  unfold tokenValue
+  unfold reservedWord at h
+  simp only [not_or] at h
+  simp [h.1, h.2.1, h.2.2]
+
+theorem bare_value (s : Bytes) (html : Bool) (hne : s ≠ []) (hq : senQuoted s html = false)
+    (h1 : ¬ reservedWord s) (h2 : ¬ leadingSign s html) (h3 : ¬ nonTokenByte s html) :
+    parsesTo (valueDoc s html) (.arr [.str (sanitize s)]) := by
+  apply parsesTo_of_run _ _ 91 _ rfl (by decide)
+  rw [runBytes_cons_ok {} open_arr]
+  obtain ⟨p', h⟩ := bare_run s html { mode := .value, starts := [some 0], stack := [.arrMark] } {} _ [93] rfl hne hq h2 h3
+  rw [h]
+  rw [runBytes_cons_ok {} (fun l => close_arr_token _ _ l rfl rfl rfl rfl rfl rfl)]
+  refine ⟨_, _, _, rfl, rfl, rfl, ?_⟩
+  simp only [List.reverse_reverse]
+  rw [tokenValue_str s h1, (bare_facts s html hne hq).2.1]
+
+theorem bare_key (s : Bytes) (html : Bool) (hne : s ≠ []) (hq : senQuoted s html = false)
+    (h2 : ¬ leadingSign s html) (h3 : ¬ nonTokenByte s html) :
+    parsesTo (keyDoc s html) (.obj [(sanitize s, .int 1)]) := by
+  apply parsesTo_of_run _ _ 123 _ rfl (by decide)
+  rw [runBytes_cons_ok {} open_obj]
+  obtain ⟨p', h⟩ := bare_run s html { mode := .value, starts := [none], stack := [.obj []] } {} _ [58, 49, 125] rfl hne hq h2 h3
+  rw [h]
+  rw [runBytes_cons_ok {} (fun l => colon_token _ _ l rfl rfl rfl rfl rfl)]
+  rw [runBytes_cons_ok {} (fun l => step_one _ _ l rfl rfl rfl)]
+  rw [runBytes_cons_ok {} (fun l => step_close_member _ _ l s _ rfl rfl (by simp) rfl rfl rfl)]
+  refine ⟨_, _, _, rfl, rfl, rfl, ?_⟩
+  rw [(bare_facts s html hne hq).2.1]
+
+/-! ## the property at string level -/
+
+theorem quoted_form (s : Bytes) (html : Bool) (h : s = [] ∨ senQuoted s html = true) :
+    senString s html = 34 :: (senBody html 0 true s ++ [34]) := by
+  rcases h with rfl | h
+  · rfl
+  · unfold senString
+    cases hs : s.isEmpty with
+    | true =>
+      have : s = [] := by cases s <;> simp_all
+      subst this; rfl
+    | false => simp [h]
+
+/-- **C10 at string level, value position, partial form**: every byte string that is not one of the
+reserved words, is not written bare with a leading sign and is not written bare with a byte no token
+has, comes back from `[` text `]` as the one string `sanitize s` — never a number, bool, null, sign,
+comment or error. No length bound. -/
+theorem C10_value_partial (s : Bytes) (html : Bool)
+    (h1 : ¬ reservedWord s) (h2 : ¬ leadingSign s html) (h3 : ¬ nonTokenByte s html) :
+    parsesTo (valueDoc s html) (.arr [.str (sanitize s)]) := by
+  by_cases hne : s = []
+  · exact quoted_value s html (quoted_form s html (Or.inl hne))
+  · cases hq : senQuoted s html with
+    | true => exact quoted_value s html (quoted_form s html (Or.inr hq))
+    | false => exact bare_value s html hne hq h1 h2 h3
+
+/-- **C10 at string level, key position, partial form**: the reserved words are fine as keys -/
+theorem C10_key_partial (s : Bytes) (html : Bool) (h2 : ¬ leadingSign s html) (h3 : ¬ nonTokenByte s html) :
+    parsesTo (keyDoc s html) (.obj [(sanitize s, .int 1)]) := by
+  by_cases hne : s = []
+  · exact quoted_key s html (quoted_form s html (Or.inl hne))
+  · cases hq : senQuoted s html with
+    | true => exact quoted_key s html (quoted_form s html (Or.inr hq))
+    | false => exact bare_key s html hne hq h2 h3
+
+/-- non-vacuity: strings that meet the hypotheses — `ab` is written bare, `12` is quoted because of
+its first byte, `- \xff` is quoted (a space, invalid UTF-8) although it begins with a sign -/
+example : ¬ reservedWord [97, 98] ∧ ¬ leadingSign [97, 98] false ∧ ¬ nonTokenByte [97, 98] false ∧
+    senQuoted [97, 98] false = false := by
+  refine ⟨by unfold reservedWord; decide, ?_, ?_, by decide +kernel⟩
+  · intro h; exact absurd h.2 (by decide)
+  · intro h; exact absurd h.2 (by decide)
+example : ¬ reservedWord [49, 50] ∧ ¬ leadingSign [49, 50] false ∧ ¬ nonTokenByte [49, 50] false := by
+  refine ⟨by unfold reservedWord; decide, ?_, ?_⟩
+  · intro h; exact absurd h.2 (by decide)
+  · intro h; exact absurd h.2 (by decide)
+example : ¬ leadingSign [45, 32, 0xff] false := by
+  intro h; exact absurd h.1 (by decide +kernel)
+
+/-- the full statement: every string, in value and in key position -/
+def C10_string_full : Prop :=
+  ∀ (s : Bytes) (html : Bool),
+    parsesTo (valueDoc s html) (.arr [.str (sanitize s)]) ∧ parsesTo (keyDoc s html) (.obj [(sanitize s, .int 1)])
+
+def checkDocs (r : Except Err Out) (p : List JV → Bool) : Bool :=
+  match r with
+  | .ok o => p o.docs
+  | .error _ => false
+
+def isArrTrue : List JV → Bool
+  | [.arr [.bool true]] => true
+  | _ => false
+
+def isArrIntNeg1 : List JV → Bool
+  | [.arr [.int (-1)]] => true
+  | _ => false
+
+/-- `"true"` in value position comes back as the bool `true` (known finding C10-reserved-word) -/
+theorem C10_string_full_false : ¬ C10_string_full := by
+  intro h
+  obtain ⟨o, ho, hd⟩ := (h [116, 114, 117, 101] false).1
+  have hc : checkDocs (run senTables {} [valueDoc [116, 114, 117, 101] false]) isArrTrue = true := by decide +kernel
+  rw [ho] at hc
+  simp only [checkDocs, hd, isArrTrue] at hc
+  cases hc
+
+/-- `"-1"` in value position comes back as the number -1 (known finding C10-leading-sign) -/
+theorem C10_string_full_false_sign : ¬ C10_string_full := by
+  intro h
+  obtain ⟨o, ho, hd⟩ := (h [45, 49] false).1
+  have hc : checkDocs (run senTables {} [valueDoc [45, 49] false]) isArrIntNeg1 = true := by decide +kernel
+  rw [ho] at hc
+  simp only [checkDocs, hd, isArrIntNeg1] at hc
+  cases hc
+
+/-- `"-"` as a key and `"a&b"` as a value do not parse at all (C10-leading-sign in key position,
+C10-bare-nontoken-byte) -/
+theorem C10_string_full_false_error : ¬ C10_string_full := by
+  intro h
+  obtain ⟨o, ho, _⟩ := (h [97, 38, 98] false).1
+  have hc : checkDocs (run senTables {} [valueDoc [97, 38, 98] false]) (fun _ => true) = false := by decide +kernel
+  rw [ho] at hc
+  cases hc
+
+theorem C10_key_full_false_sign : ¬ C10_string_full := by
+  intro h
+  obtain ⟨o, ho, _⟩ := (h [45] false).2
+  have hc : checkDocs (run senTables {} [keyDoc [45] false]) (fun _ => true) = false := by decide +kernel
+  rw [ho] at hc
+  cases hc
+
 end OjgVerif.C10
